@@ -3,6 +3,7 @@ package checks
 import (
 	"bytes"
 	"fmt"
+	"github.com/lightninglabs/lightning-node-connect/mailbox"
 	"strings"
 	"testing"
 
@@ -214,6 +215,13 @@ func runC04(c *mon.Case) {
 	sizes := []int{0, 1, 4, 498, 499, 500, 65535, 65536, big}
 	psize := sizes[(c.Idx/72)%9]
 	auth := authMarker(rng, psize)
+	if c.Idx%2 == 1 {
+		// the application's payload slice has spare capacity (it was
+		// appended to, or cut from a larger buffer)
+		auth = append(make([]byte, 0, psize+16+rng.Intn(64)), auth...)
+	}
+	authOrig := append([]byte{}, auth...)
+	c04CheckEarlier(c)
 	pass := eng.Entropy(rng)
 	cfg := eng.HSConfig{KK: kk, CMin: vr[0], CMax: vr[1], SMin: vr[2], SMax: vr[3], PassC: pass, PassS: pass, Auth: auth, KeyC: eng.NewKey(rng), KeyS: eng.NewKey(rng)}
 	tag := fmt.Sprintf("%s c[%d,%d] s[%d,%d] auth=%d", map[bool]string{true: "KK", false: "XX"}[kk], vr[0], vr[1], vr[2], vr[3], psize)
@@ -249,6 +257,12 @@ func runC04(c *mon.Case) {
 	// (U) untampered
 	u := eng.RunHandshake(cfg)
 	judge(u, "")
+	if u.OK() {
+		if !bytes.Equal(auth, authOrig) || !bytes.Equal(u.S.CD.AuthData(), authOrig) {
+			c.Shard.Violate("views-differ|responder-payload-changed", fmt.Sprintf("%s: after a completed handshake the responder's own auth payload (%d bytes, slice capacity %d) is not what the application configured any more", tag, len(authOrig), cap(auth)), rep)
+		}
+		c04Remember(u.C.CD, authOrig, tag)
+	}
 	if u.C.NewErr != nil || u.S.NewErr != nil {
 		c.Shard.Count("machine_rejected_config", 1)
 		c.Shard.Eval("")
@@ -413,4 +427,37 @@ func tamperKind(s string) string {
 		return "untampered"
 	}
 	return "bitflip"
+}
+
+// What an initiator holds after a completed handshake must stay what its
+// responder sent, whatever other sessions of the same process do afterwards:
+// the ConnData of earlier cases of this worker are looked at again.
+var c04Earlier []struct {
+	cd   *mailbox.ConnData
+	want []byte
+	tag  string
+}
+
+func c04Remember(cd *mailbox.ConnData, want []byte, tag string) {
+	if len(want) == 0 || len(want) > 70000 {
+		return
+	}
+	c04Earlier = append(c04Earlier, struct {
+		cd   *mailbox.ConnData
+		want []byte
+		tag  string
+	}{cd, want, tag})
+	if len(c04Earlier) > 8 {
+		c04Earlier = c04Earlier[1:]
+	}
+}
+
+func c04CheckEarlier(c *mon.Case) {
+	for _, e := range c04Earlier {
+		if got := e.cd.AuthData(); !bytes.Equal(got, e.want) {
+			c.Shard.Violate("views-differ|payload-changed-later", fmt.Sprintf("an initiator that completed its handshake earlier (%s) held the responder's %d-byte auth payload then; after handshakes of other sessions in the same process its ConnData holds %d bytes that differ (first difference at offset %d)", e.tag, len(e.want), len(got), firstDiff(got, e.want)), nil)
+			c04Earlier = nil
+			return
+		}
+	}
 }
